@@ -393,6 +393,7 @@ func (w *World) genHistory(p HistParams) *History {
 		w.scenarioH440(h, deliver)
 	case "badtxsweep":
 		w.scenarioBadTxSweep(h, deliver)
+		w.scenarioUnlockEdge(h, deliver)
 	}
 	if len(h.Ops) > 0 && h.Ops[len(h.Ops)-1].Dump == nil {
 		h.Ops[len(h.Ops)-1].Dump = w.dump(h.NUT)
@@ -856,6 +857,66 @@ func (w *World) scenarioBadTxSweep(h *History, deliver func(*TNode) *Op) {
 		}
 	}
 	h.Stats["scenario-badtxsweep"]++
+}
+
+// scenarioUnlockEdge: a stake, then on every tip from there until past the unlock height a block carrying the staker's
+// unstake: refused on every tip below the unlock height, accepted on the first tip that reaches it (the block that
+// carried a refused unstake is replaced by an empty one so that the tip moves on one block at a time).
+func (w *World) scenarioUnlockEdge(h *History, deliver func(*TNode) *Op) {
+	rng := w.rng
+	force := func(parent *TNode, kind, wi int, corrupt string) ([]*transaction.Transaction, []TxMeta) {
+		w.forceKind, w.forceWallet, w.forceCorrupt = kind, wi, corrupt
+		t, m, _ := w.genTxs(parent, 1, 0)
+		w.forceKind, w.forceCorrupt = 0, ""
+		if len(t) == 1 && int(t[0].Version) == kind {
+			return t, m
+		}
+		return nil, nil
+	}
+	for round := 0; round < 2; round++ {
+		parent := w.nodeOfTop(h.NUT)
+		if parent == nil || parent.Snap == nil {
+			return
+		}
+		staker := -1
+		for k, start := 0, rng.Intn(len(w.wallets)); k < len(w.wallets) && staker < 0; k++ {
+			wi := (start + k) % len(w.wallets)
+			if txs, meta := force(parent, 4, wi, ""); txs != nil {
+				x := w.build(parent, BlockSpec{TsDelta: 15000, Recipient: w.wallets[rng.Intn(len(w.wallets))].Addr, Txs: txs, TxMeta: meta, Sign: 1})
+				w.admit(x)
+				deliver(x)
+				if x.Valid && w.nodeOfTop(h.NUT) == x {
+					staker = wi
+				}
+			}
+		}
+		if staker < 0 {
+			return
+		}
+		for step := uint64(0); step < config.STAKE_UNLOCK_TIME+3; step++ {
+			parent = w.nodeOfTop(h.NUT)
+			if parent == nil || parent.Snap == nil {
+				return
+			}
+			done := false
+			if txs, meta := force(parent, 5, staker, "early-unstake"); txs != nil {
+				x := w.build(parent, BlockSpec{TsDelta: 15000, Recipient: w.wallets[rng.Intn(len(w.wallets))].Addr, Txs: txs, TxMeta: meta, Sign: 1})
+				w.admit(x)
+				op := deliver(x)
+				op.Dump = w.dump(h.NUT)
+				h.Stats["unlock-edge-attempt"]++
+				done = w.nodeOfTop(h.NUT) == x
+			}
+			if done {
+				h.Stats["unlock-edge-unstaked"]++
+				break
+			}
+			y := w.build(parent, BlockSpec{TsDelta: 15000, Recipient: w.wallets[rng.Intn(len(w.wallets))].Addr, Sign: 1})
+			w.admit(y)
+			deliver(y)
+		}
+	}
+	h.Stats["scenario-unlockedge"]++
 }
 
 // scenarioCorruptSweep: every single-rule corruption of an otherwise valid block, once each, on a live chain state
